@@ -213,8 +213,7 @@ void IniFile::write(const String& fname)
 				for(j=i+k; j<_lines.length() && _lines[j][0]!='['; j++)
 				{}
 				j--;
-				if(j>0)
-					while(_lines[j][0]=='\0') j--;
+				while(j>0 && _lines[j][0]=='\0') j--;
 				j++;
 				//_lines.insert(j, "");
 				break;
